@@ -1,14 +1,16 @@
 #!/bin/bash
-# usage: lib/seeded_lanes.sh [lanes]   (default 6)
+# usage: lib/seeded_lanes.sh [lanes] [id pattern]   (default 6 lanes, every change; with a pattern only the matching
+# changes are run and their lines replace the old ones in seeded/RESULTS.txt)
 # Like lib/seeded_matrix.sh, but never touches /repo: every seeded change is applied to a scratch copy of /repo and the
 # quick check of the property it was written against (plus the checks in seeded/<id>/also.txt) runs against that copy
 # (VERIF_REPO) from a scratch copy of /verif; several lanes side by side.  Writes seeded/RESULTS.txt.
 cd /verif
 lanes=${1:-6}
+pat=${2:-.}
 work=/tmp/seeded-lanes; rm -rf $work; mkdir -p $work
 trap 'rm -rf $work' EXIT
 declare -A REV=( [01]=C16 [02]=C16 [03]="C08 C09" [04]="C08 C09" [05]=C10 [06]=C05 [07]=C05 [08]=C05 [09]="C14 C07" [10]="C07 C03" [11]=C03 [12]="C11 C05" [13]=C17 [14]=C18 [15]=C09 )
-ls -d seeded/*/ | while read d; do [ -f $d/patch.diff ] && basename $d; done > $work/all.txt
+ls -d seeded/*/ | while read d; do [ -f $d/patch.diff ] && basename $d; done | grep -E "$pat" > $work/all.txt
 split -n r/$lanes $work/all.txt $work/part.
 rsync -a --exclude .git --exclude replays --exclude seeded --exclude benign /verif/ $work/verif/
 for f in $work/part.*; do
@@ -38,5 +40,6 @@ for f in $work/part.*; do
   ) &
 done
 wait
-cat $work/res-*.txt | sort > seeded/RESULTS.txt
+if [ "$pat" = "." ]; then cat $work/res-*.txt | sort > seeded/RESULTS.txt
+else ( grep -v -F -f <(sed 's/$/ |/' $work/all.txt) seeded/RESULTS.txt; cat $work/res-*.txt ) | sort > $work/merged.txt; cp $work/merged.txt seeded/RESULTS.txt; fi
 echo "wrote seeded/RESULTS.txt: $(wc -l < seeded/RESULTS.txt) changes, $(grep -c 'CAUGHT-BY: C' seeded/RESULTS.txt) reported"
